@@ -46,7 +46,7 @@ Proof. exact arm_scratch_refuted_pinned. Qed.
 Print Assumptions C16_callee_saved_refuted.
 
 (* the constants of the model's encoder are those of the current Rust source (gen/SrcConsts.v is regenerated from it on every run) *)
-From Inj Require Import SrcTie.
+From Inj Require Import SrcTieArm.
 From Inj.gen Require Import SrcConsts.
 Theorem C16_source_words : a32_ldr SRC_RA = ARM_A32_LDR /\ a32_bx SRC_RA = ARM_A32_BX /\ t16_ldr_bx SRC_RT = ARM_T16_LDR_BX /\
   0 <= SRC_RA < 16 /\ 0 <= SRC_RT < 8 /\ ARM_T16_PAD = 0 /\ ARM_PATCH_SIZE = 12 /\ ARM_T16_NOP = [0xC0; 0x46] /\ ARM_ROTATE = 2.
